@@ -227,9 +227,21 @@ def run(ctx, n_files=None):
                 c = fs.clone(msg)
                 fa = fs.uuid_fields(c)
                 desc = []
-                if rng.random() < 0.6:
+                def same_kind(k):
+                    """k nodes of one kind (re-use instead of rejection)"""
+                    kind = fields[rng.choice(nodes)][0]
+                    pool = [i for i in nodes if fields[i][0] == kind]
+                    return rng.sample(pool, k) if len(pool) >= k else None
+                r = rng.random()
+                if r < 0.35:
+                    a, b, d = same_kind(3) or rng.sample(nodes, 3)
+                    plan = [(a, b), (a, d)]
+                elif r < 0.55:
                     a, b, d = rng.sample(nodes, 3)
                     plan = [(a, b), (a, d)]
+                elif r < 0.8:
+                    plan = [tuple(same_kind(2) or rng.sample(nodes, 2))
+                            for _ in range(rng.choice([2, 2, 3]))]
                 else:
                     plan = [tuple(rng.sample(nodes, 2))
                             for _ in range(rng.choice([2, 2, 3]))]
